@@ -95,12 +95,30 @@ func runC13(c *Ctx) {
 			{Name: "uncle header individually valid (verifyHeader, uncle=true, seal=true)",
 				Re: `^Aquahash#0\.verifyHeader\(ChainReader#0, ` + un + `, .*, true, true\) == nil$`},
 		})
+		// uniform hashing: every member of the "already included" set is hashed exactly like the candidate that is
+		// looked up in it (version from the uncle's own number), or is the block's own hash
+		adds := callSites(fn, `^Set\.Add$`)
+		uh := regexp.MustCompile(`^(.+)\.SetVersion\(ChainReader#0\.Config\(\)\.GetBlockVersion\((.+)\.Number\)\)$`)
+		for _, a := range adds {
+			t := c.termOf(fn, a.Common().Args[0])
+			m := uh.FindStringSubmatch(t)
+			ok := t == "Block#0.Hash()" || (m != nil && m[1] == m[2])
+			c.Ob("C13-R2", "VerifyUncles: set member hashed like the looked-up candidate", c.Position(a.Pos()), ok, "added: "+t)
+		}
+		if len(adds) < 3 {
+			c.Ob("C13-R2", "VerifyUncles: past uncles, block hash and candidates are added to the set", c.FnPos(fn), false, fmt.Sprintf("%d Add sites", len(adds)))
+		}
+		for _, cs := range callSites(fn, `^Set\.Contains$`) {
+			t := c.termOf(fn, cs.Common().Args[0])
+			m := regexp.MustCompile(`^\[(.+)\.SetVersion\(ChainReader#0\.Config\(\)\.GetBlockVersion\((.+)\.Number\)\)\]$`).FindStringSubmatch(t)
+			c.Ob("C13-R2", "VerifyUncles: duplicate lookup uses the candidate's versioned hash", c.Position(cs.Pos()), m != nil && m[1] == m[2], "looked up: "+t)
+		}
 		// ancestor window: the ancestor loop is bounded by 7
 		c.MustOnAccept("C13-R2", fn, -1, false, []LitReq{
 			{Name: "ancestor window is 7 generations", Unless: fake, Re: `^(phi:i >= 7|ChainReader#0\.GetBlock\(phi:parent, phi:number\) == nil)$`},
 		})
 	})
-	c.Min("C13-R2", 12)
+	c.Min("C13-R2", 16)
 
 	c.Rule("C13-R3", "difficulty dispatch: general path clamps to the fork minimum; fork blocks reset to scheduled constants; constants by value", func() {
 		for spec, want := range map[string]string{
